@@ -220,6 +220,7 @@ RULE_ADDENDA = {
     "C01": "header fields with boundary patterns (all-zero / all-ones xid, secs, flags; op 0/1/2/255); option-area sweep: one option of every length 0..130 and 240..270 next to a message type",
     "C02": "edge-aware numeric fields (0, 1, 0x7f../0x80.., max); byte strings with lengths around 63/64, 127/128/130, 253-257; names of exactly 250..253 octets; special address forms (IPv4-mapped, zero, loopback, link-local, multicast); sub-option codes that collide with top-level codes; decoded-then-edited names (another name, another case, another order, appended) must round-trip",
     "C04": "whole-cookie variants (zero, all ones, byte-swapped, partially zero) on 240-, 300-octet and full packets",
+    "C03": "structure-aware malformation: every known DHCPv6 option type with its value cut at every position, lengthened by 1..3 octets and with every inner 16-bit field perturbed (+1, -1, +256, 0xffff) under intact outer framing, alone (ParseOption), in a message, inside an IA_NA and inside a relay message, observers run on every accepted one; every DHCPv4 option that has a typed reader with its value cut at every position in an otherwise valid packet, all observers run",
     "C05": "names of dotted length 250..256 and 319 ended by a zero, by the end of the value, by another name or lengthened by a compression pointer, in options 24, 39, 56/3 alone, in a message and inside an IA_NA; same value generators as C02",
     "C06": "durations dumped exactly (values no 32-bit field can carry never compare equal); known finding F12 input and its non-overflowing neighbour",
     "C07": "independent decoder also compares op/htype/hops/xid/secs/flags, the four addresses, chaddr (16 octets), sname/file and their zero fill; packets built through the typed constructors keep their option values while other packets are built and encoded",
